@@ -23,13 +23,17 @@ def check(ctx):
                    "log-pseudo-determinant by +/- rank*log(s); both constructors pass rank and "
                    "the adjusted log-pdet on; _log_prob = 0.5*(-q - (rank*log(2 pi) - "
                    "log_pdet)).")
+    ctx.rule("R5", "sampling: directions of the null space of the precision get scale 0, "
+                   "range directions 1/sqrt(eigenvalue) (scale term evaluated at the two "
+                   "sign patterns of eigenvalue vs. tolerance).")
     ctx.rule("R2", "AlgebraicSigmoid: inverse(forward(x)) = x, forward/inverse log-det-"
                    "Jacobians are the logs of the derivatives (sympy term normalisation).")
     ctx.rule("R3", "the bounds asserted under validate_args contain the range of the "
                    "parameter's constraining bijector.")
     ctx.rule("R4", "GaussianCopula = NormalCDF(MVN(0, [[1,0],[rho, sqrt(1-rho^2)]])).")
     ctx.trust("sympy.simplify/limit as algebraic normaliser for the extracted terms")
-    ctx.undecided("null-space invariance, sample covariance = pseudo-inverse, agreement "
+    ctx.undecided("null-space invariance of the density, sample covariance = "
+                  "pseudo-inverse numerically, agreement "
                   "with the closed-form copula density (value-level)")
 
     # ------------------------------------------------------------------ R1
@@ -131,6 +135,87 @@ def check(ctx):
             ok_p = w[2][1] == n("eigenvalues") and w[2][2] == c(1.0)
     ctx.ob("C18.R1", pd, "_log_pdet sums the logs of the selected eigenvalues (others "
                          "contribute log 1 = 0)", ok_p, detail=short(rp or ()))
+
+    # ------------------------------------------------------------------ R5 sampling
+    sq = method(repo, mv, "_sqrt_pcov", own=True)
+    rsq = evaluate(repo, sq).ret()
+    eig_t = ("proj", ("a", n("self"), "eig"), 0)
+    vec_t = ("proj", ("a", n("self"), "eig"), 1)
+    tol_t = ("a", n("self"), "_tol")
+    scale_terms = []
+    if rsq is not None:
+        for x in subterms(rsq):
+            if x[0] == "call" and any(y == eig_t for y in subterms(x)) and not any(
+                    y == vec_t for y in subterms(x)):
+                scale_terms.append(x)
+    # candidates for the per-direction scale, largest first (the largest eigenvalue-only
+    # term that the scalar evaluator below understands is the scale)
+    scale_terms.sort(key=lambda x: -len(pretty(x)))
+    scale = scale_terms[0] if scale_terms else None
+    ok5, detail5 = False, short(rsq or (), 200)
+    if scale is not None:
+        import math
+
+        def ev(t, lam):
+            if t == eig_t:
+                return lam
+            if t == tol_t:
+                return 1e-6
+            if t[0] == "c":
+                return t[1]
+            if t[0] == "op":
+                a, b = ev(t[2], lam), ev(t[3], lam)
+                if t[1] == "/":
+                    return math.inf if b == 0 else a / b
+                return {"+": a + b, "-": a - b, "*": a * b, "**": a ** b}[t[1]]
+            if t[0] == "cmp":
+                a, b = ev(t[2], lam), ev(t[3], lam)
+                return {"<": a < b, "<=": a <= b, ">": a > b, ">=": a >= b}[t[1]]
+            if t[0] == "call":
+                nm = (fn_name(t[1]) or "").rsplit(".", 1)[-1]
+                args = [ev(a, lam) for a in t[2]]
+                if nm == "sqrt":
+                    return math.inf if args[0] == math.inf else math.sqrt(args[0])
+                if nm == "rsqrt":
+                    return math.inf if args[0] == 0 else 1 / math.sqrt(args[0])
+                if nm == "where":
+                    return args[1] if args[0] else args[2]
+                if nm in ("abs",):
+                    return abs(args[0])
+                if nm in ("expand_dims", "asarray", "atleast_1d"):
+                    return args[0]
+            raise KeyError(t)
+        detail5 = f"unmodelled scale term {short(scale, 120)}"
+        for cand in scale_terms:
+            try:
+                null_scale = ev(cand, 0.0)
+                range_scale = ev(cand, 4.0)
+            except (KeyError, TypeError, ZeroDivisionError, ValueError):
+                continue
+            if isinstance(null_scale, bool):
+                continue
+            ok5 = null_scale == 0 and abs(range_scale - 0.5) < 1e-12
+            detail5 = (f"scale of a null-space direction (eigenvalue 0) = {null_scale}, of a "
+                       f"range direction with eigenvalue 4 = {range_scale}")
+            break
+    uses_vecs = rsq is not None and any(x == vec_t for x in subterms(rsq))
+    ctx.ob("C18.R5", sq, "the square-root pseudo-covariance scales each eigen-direction by "
+                         "1/sqrt(eigenvalue) and null-space directions (eigenvalue below the "
+                         "tolerance) by exactly 0, so samples stay in the range space", ok5
+           and uses_vecs, unproven="unmodelled" in detail5, detail=detail5,
+           stmt="sqrt pcov " + detail5[:120])
+    eigp = method(repo, mv, "eig", own=True)
+    ctx.ob("C18.R5", eigp, "the eigen-decomposition is that of the precision matrix",
+           evaluate(repo, eigp).ret() == ("call", ("g", "jax.numpy.linalg.eigh"),
+                                          (("a", n("self"), "_prec"),), ()))
+    sn = method(repo, mv, "_sample_n", own=True)
+    rsn = evaluate(repo, sn).ret()
+    ok_sn = (rsn is not None and rsn[0] == "op" and rsn[1] == "+"
+             and any(x == ("a", n("self"), "_sqrt_pcov") for x in subterms(rsn))
+             and any(x == ("a", n("self"), "_loc") for x in subterms(rsn))
+             and any(is_call(x, "jax.random.normal") for x in subterms(rsn)))
+    ctx.ob("C18.R5", sn, "samples = loc + sqrt_pcov @ standard normal noise", ok_sn,
+           detail=short(rsn or (), 160))
 
     # ------------------------------------------------------------------ R2
     sg = repo.cls(SIG)
